@@ -17,6 +17,7 @@ ops:
 * `call <msg> <gov-hex> <auth-hex> <payloadOk> <chain> <govOk> <non-empty list fields>`   one routed message → the stage it ends in
 * `hcall <type> <msg> <gov-hex> <auth-hex> <chain> <govOk> <non-empty list fields>`   the method serving the message on a value of that concrete type, called directly
 * `tx|authz|gprop <msg> <gov-hex> <auth-hex> <signer/grantee bytes hex or -> <payloadOk> <chain> <govOk> <lists>`   the message inside a signed transaction / a MsgExec / a passed proposal
+* `blk <gov-hex> t <msg> <auth-hex> <signer bytes hex> <payloadOk> <chain> <govOk> <lists> t …`   several signed transactions in ONE block (FinalizeBlock + Commit) → the stage of each
 * `dcall <type> <method> <gov-hex> <auth-hex>`         a dependency handler (SDK / IBC / ethermint) called directly
 * `casreset`                                        empty scratch stores
 * `cas <gov-hex> <auth-hex> <space:key:old:new>…`   one MsgUpdateStore through its branch
@@ -74,6 +75,19 @@ partial def parseMsgs (ws : List String) : Option (List (Str × List Entry)) :=
     match unhexS a, es.mapM parseEntry, parseMsgs tail with
     | some a, some es, some ms => some ((a, es) :: ms)
     | _, _, _ => none
+  | _ => none
+
+/-- `t <msg> <auth> <signer> <pOk> <chain> <govOk> <lists>`… → the block's transactions, given the governance string -/
+def parseBlock (st : St) : List String → Option (Str → List (BlockTx Nat))
+  | [] => some fun _ => []
+  | "t" :: msg :: authH :: whoH :: pOk :: chain :: govOk :: lists :: rest =>
+    match routeOf C16Sem.services C16Sem.registrations msg, unhexS authH, unhex whoH, parseBlock st rest with
+    | some (T, m), some auth, some who, some more =>
+      some fun gov =>
+        { env := mkEnv st.cfg gov (if lists == "-" then [] else lists.splitOn ",") (govOk == "1"),
+          W := world (C16Sem.routes.contains chain), T := T, m := m, msg := msg, auth := auth,
+          payloadOk := pOk == "1", signer := who } :: more gov
+    | _, _, _, _ => none
   | _ => none
 
 def step (st : St) (line : String) : St × String :=
@@ -152,6 +166,19 @@ def step (st : St) (line : String) : St × String :=
       let fs := ms.map fun (a, es) => updMsg st gov a es
       let (r, S') := runProposalWith C16Sem.proposalExec fs st.stores
       ({ st with stores := S' }, (if r == .ok then "passed " else "failed ") ++ showStores S')
+    | _, _ => (st, "bad-op")
+  | "blk" :: govH :: ws =>
+    -- a whole block: `t <msg> <auth-hex> <signer bytes hex> <payloadOk> <chain> <govOk> <lists>` per transaction
+    match unhexS govH, parseBlock st ws with
+    | some gov, some mk =>
+      let (rs, _) := blockRun prog C16Sem.msgInfos (mk gov) 0
+      (st, " ".intercalate (rs.map fun r => match r with
+        | (.basic, _) => "rejected:basic"
+        | (.ante, _) => "rejected:ante"
+        | (.authz, _) => "rejected:authz"
+        | (.submit, _) => "rejected:submit"
+        | (.msgs, .err) => "rejected:signer"
+        | (.msgs, .ok) => "past-guard"))
     | _, _ => (st, "bad-op")
   | [kind, msg, govH, authH, whoH, pOk, chain, govOk, lists] =>
     -- `tx` / `authz` / `gprop`: a privileged message inside a signed transaction, inside a MsgExec, inside a proposal
